@@ -2,6 +2,7 @@
 from ..eng import EngineModel
 from .. import rules_state as rs
 from .. import rules_db as rd
+from .. import rules_bind as rb
 
 
 def check(repo, rep, tier):
@@ -14,3 +15,8 @@ def check(repo, rep, tier):
     rs.rule_deref_closure(em, rep, 'C15.V1')
     rs.rule_to_python_siblings(em, rep, 'C15.V3')
     rd.rule_findall_shape(em, rep, 'C15.V3b')
+    # what get_value follows is what the binder wrote: nobody else rewrites the cell (no path shortening)
+    rb.rule_bind_ownership(em, rep, 'C15.V4')
+    fr = rs.Freshness(em)
+    rs.rule_store_snapshot(em, rep, 'C15.V5s', fr)
+    rs.rule_copier_derefs(em, rep, 'C15.V5', fr)
